@@ -147,9 +147,21 @@ def stub_append_data(self, step_idx, molecule, T, Ek, Ep, e_gap):
 # thermo stubs: uninterpreted functions of the *current* velocities / molecule (contract verified in C08/C13)
 
 
+EK_MODEL = {"spec": False}
+
+
+def ek_node(vel_nodes):
+    """Kinetic energy of the (one-atom ghost) molecule as a function of its velocities: an uninterpreted function by default;
+    with EK_MODEL['spec'] the contract proved for _kinetic_energy in C08.kinetic, KES/2 * m * |v|^2 (KES, m positive symbols)."""
+    if not EK_MODEL["spec"]:
+        return E.uf("Ek_of", tuple(vel_nodes), E.R)
+    v2 = E.add(*[E.mul(x, x) for x in vel_nodes])
+    return E.mul(E.var("KES_half", E.R), E.var("mass", E.R), v2)
+
+
 def stub_kinetic_energy(self, molecule):
     v = molecule.velocities.a.reshape(-1)
-    return st.tensor([Sym(E.uf("Ek_of", tuple(x.n for x in v), E.R))])
+    return st.tensor([Sym(ek_node([x.n for x in v]))])
 
 
 def stub_calc_temperature(self, kinetic_energy):
